@@ -342,6 +342,8 @@ func typeExprName(x Expr) string {
 func (en *evalEnv) eval(x Expr) ev {
 	e := en.e
 	switch x := x.(type) {
+	case *EStr:
+		return ev{e.strConst(x.Val), types.Typ[types.String]}
 	case *EInt:
 		return ev{BigLit(x.Val), nil}
 	case *EBool:
